@@ -100,7 +100,13 @@ CLeaves == << <<Break>>, <<Continue>>, <<Return(I(9))>>, <<Return(NoExpr)>>,
               <<RaiseS("E1")>>, <<Begin(<<RaiseS("E1")>>, <<When("E1", <<P("hr"), RaiseS("E2")>>)>>)>>, <<Let("X", Bin("/", I(1), I(0)))>>,
               \* a condition that becomes null while the loop runs (a null tests false: the loop ends, nothing is raised)
               <<Let("BB", B(TRUE)), While(V("BB"), <<P("nb"), Let("BB", NullC)>>), P("nz")>>,
-              <<Let("BB", B(TRUE)), While(V("BB"), <<P("nc"), Let("BB", Call("bool", <<>>))>>), If(V("BB"), <<P("t")>>, <<P("f")>>)>> >>
+              <<Let("BB", B(TRUE)), While(V("BB"), <<P("nc"), Let("BB", Call("bool", <<>>))>>), If(V("BB"), <<P("t")>>, <<P("f")>>)>>,
+              \* assignments chained with commas and ended by a control statement: the statements after the chain do not run, the
+              \* loop that is left (or continued) is the enclosing one -- not one that starts afterwards
+              <<Chain(<<Let("K", I(1)), Break>>), P("cb")>>, <<Chain(<<Let("K", I(1)), Continue>>), P("cc")>>, <<Chain(<<Let("K", I(1)), Return(V("K"))>>), P("cr")>>,
+              <<Chain(<<Let("K", I(1)), Let("K2", I(2)), If(Bin("==", V("K2"), I(2)), <<Continue>>, <<>>)>>), P("ci")>>,
+              <<Chain(<<Let("K", I(1)), Break>>), For("J2", I(1), I(2), NoExpr, "auto", <<P("in")>>), P("cf")>>,
+              <<Chain(<<Let("K", I(1)), Let("K2", Bin("+", V("K"), I(1))), PutS(<<V("K2")>>)>>), P("ck")>> >>
 \* leaves that read the root variable C are not placed inside function bodies (locals only there)
 CLeavesC == << <<If(Bin("==", V("C"), I(0)), <<Let("C", I(1)), Break>>, <<>>)>>,
                <<If(Bin("==", V("C"), I(0)), <<Let("C", I(1)), Continue>>, <<>>)>> >>
